@@ -1,2 +1,2 @@
 SPECIFICATION TSpec
-INVARIANTS SReaction
+INVARIANTS SReaction SLog
